@@ -750,7 +750,7 @@ impl<'layout, 'out> TableWriter<'layout, 'out> {
             self.write_ifunc_relocation::<A>(res)?;
         } else {
             *got_entry = if res.flags.is_address() && self.output_kind.is_relocatable() {
-                self.write_address_relocation::<A>(got_address, res.raw_value)?
+                self.write_address_relocation::<A>(got_address, res.raw_value, true)?
             } else {
                 res.raw_value
             };
@@ -768,7 +768,7 @@ impl<'layout, 'out> TableWriter<'layout, 'out> {
             let got_entry = self.take_next_got_entry()?;
             let plt_address = res.plt_address()?;
             *got_entry = if self.output_kind.is_relocatable() {
-                self.write_address_relocation::<A>(ifunc_got_address, plt_address)?
+                self.write_address_relocation::<A>(ifunc_got_address, plt_address, true)?
             } else {
                 plt_address
             };
@@ -1058,15 +1058,21 @@ impl<'layout, 'out> TableWriter<'layout, 'out> {
         &mut self,
         place: u64,
         relative_address: u64,
+        can_pack: bool,
     ) -> Result<u64> {
         debug_assert_bail!(
             self.output_kind.is_relocatable(),
             "write_address_relocation called when output is not relocatable"
         );
         let e = LittleEndian;
-        // Odd offsets mean bitmaps in RELR, so we need to fall back to RELA for them.
+        // Odd offsets mean bitmaps in RELR, so we need to fall back to RELA for them. `can_pack` is
+        // the decision that was made when space was allocated; it implies that `place` is even.
+        debug_assert_bail!(
+            !can_pack || place.is_multiple_of(2),
+            "Attempted to pack a relative relocation at an odd address"
+        );
         if let Some(relr_writer) = &mut self.relr_dyn
-            && place.is_multiple_of(2)
+            && can_pack
         {
             let relr = relr_writer
                 .split_off_first_mut()
@@ -3531,7 +3537,16 @@ fn write_absolute_relocation<'data, A: Arch<Platform = Elf>>(
             &layout.merged_strings,
             &layout.merged_string_start_addresses,
         )?;
-        table_writer.write_address_relocation::<A>(place, address)
+        // This must match the decision made when allocating space in `process_relocation`: we only
+        // pack relocations at even offsets of sections that are at least 2-byte aligned, since only
+        // then do we know before layout that the final address will be even.
+        let can_pack = section_info
+            .part_id
+            .alignment(&layout.output_sections)
+            .value()
+            >= 2
+            && (place - section_info.section_address).is_multiple_of(2);
+        table_writer.write_address_relocation::<A>(place, address, can_pack)
     } else {
         resolution.value_with_addend(
             addend,
